@@ -18,3 +18,5 @@ import EmuVerif.Props.C09
 #print axioms EmuVerif.Props.C09.completed_step_canonical
 #print axioms EmuVerif.Props.C09.first_sweep_compared_with_previous_step
 #print axioms EmuVerif.Props.C09.stale_previous_energy_counterexample
+#print axioms EmuVerif.Props.C09.repaired_steps_compare_their_own_sweeps
+#print axioms EmuVerif.Props.C09.repaired_every_step_compares_its_own_sweeps
